@@ -446,6 +446,11 @@ func checkAll(c *mc.Ctx, g orb.Geometry, srid int, order binary.ByteOrder, typed
 				}
 				if dn == "Bound" {
 					if hasNaN(want) {
+						// min/max over NaN has no closed form, but "its bound" is still the Bound() of the value the
+						// other decoders return: the scan may not compute a different one
+						if wb := want.Bound(); !sameBound(sg, wb) || !sameBound(get(), wb) {
+							c.Failf("typed-scan", "%s: bound %v (destination %v), the decoded geometry's Bound() is %v | %s", path, sg, get(), wb, desc)
+						}
 						continue
 					}
 					if !sameBound(sg, exp) || !sameBound(get(), exp) {
